@@ -269,6 +269,11 @@ func c06Batch(c *core.Ctx, rng *rand.Rand, batch int, withFree bool, oddDir bool
 			// wins is not documented), but a second run must still change nothing
 			src = reTagFirstItem.ReplaceAllString(src, `@tag $1:"$2" $1:"again"`)
 			cl = "G8rep"
+		} else if withFree && rng.Intn(8) == 0 {
+			// idempotence only (C07): keys with a hyphen or a dot (x-order, yaml.v3) — whatever the tool reads as the key,
+			// it reads the same thing in the comment and in the literal it wrote
+			src = reTagFirstItem.ReplaceAllString(src, `@tag $1:"$2" x-order:"1" yaml.v3:"n"`)
+			cl = "G8hyph"
 		}
 		if withFree && rng.Intn(7) == 0 {
 			// idempotence only (C07): the parseable-but-awkward shapes of C19 (grouped and local type
@@ -278,6 +283,26 @@ func c06Batch(c *core.Ctx, rng *rand.Rand, batch int, withFree bool, oddDir bool
 		}
 		name := fmt.Sprintf("f%02d_%s.pb.go", i, strings.ToLower(cl))
 		os.WriteFile(filepath.Join(dir, name), []byte(src), 0o644)
+		names = append(names, name)
+		classes[name] = cl
+	}
+	if batch%5 == 2 {
+		// a generated file of more than a mebibyte (large .proto packages produce them): annotated fields before and
+		// after the 1 MiB mark, an annotation-free bulk in between — or no annotation at all
+		head := "package pb\n\ntype Head struct {\n\tName string `json:\"name\"` // 姓名 @tag valid:\"required\"\n}\n\n"
+		tail := "type Tail struct {\n\tAge int32 `json:\"age,omitempty\"` // @tag valid:\"to=1~150\" form:\"age\"\n\tNote string `json:\"note\"`\n}\n"
+		cl := "BIG"
+		if withFree && rng.Intn(2) == 0 {
+			head, tail, cl = "package pb\n\ntype Head struct {\n\tName string `json:\"name\"`\n}\n\n", "type Tail struct {\n\tAge int32 `json:\"age,omitempty\"`\n}\n", "BIG0"
+		}
+		var sb strings.Builder
+		sb.WriteString(head)
+		for k := 0; sb.Len() < 1<<20+4096+rng.Intn(5000); k++ {
+			fmt.Fprintf(&sb, "// Filler%d 占位: file_proto_rawDesc would sit here\nvar filler%d = \"%s\"\n\n", k, k, strings.Repeat("\\x0a\\x12", 400))
+		}
+		sb.WriteString(tail)
+		name := fmt.Sprintf("f%02d_%s.pb.go", n, strings.ToLower(cl))
+		os.WriteFile(filepath.Join(dir, name), []byte(sb.String()), 0o644)
 		names = append(names, name)
 		classes[name] = cl
 	}
